@@ -121,13 +121,70 @@ fn run(ctx: &Ctx) -> Run {
                 // neighbours along the curve
                 let extra: Vec<u64> = positions.iter().take(64).flat_map(|s| [s.wrapping_add(1), s.wrapping_sub(1)]).filter(|s| *s < (1u64 << (2 * n))).collect();
                 positions.extend(extra);
+                let sample: Vec<u64> = positions.iter().copied().collect();
                 for s in positions {
                     check_position(run, s, n, oi, if n <= 24 { Some(&mut seen) } else { None });
+                }
+                // curve neighbours back to back (s-1, s, s+1 in this order): consecutive positions are adjacent cells that
+                // share their leading digits - where a shortcut that reuses state from the previous call would go wrong
+                let max = 1u64 << (2 * n);
+                for s in sample.iter().take(48) {
+                    for t in [s.wrapping_sub(1), *s, s.wrapping_add(1), *s] {
+                        if t < max {
+                            check_position(run, t, n, oi, None);
+                            run.count("deep.back_to_back");
+                        }
+                    }
                 }
                 run.count(&format!("deep.n{n:02}"));
             }
         }
     });
+    // (3) interleaved replay: the same (depth, orientation, position) triples evaluated many times in a random order that
+    // mixes depths and orientations; every evaluation must satisfy the oracle again (a result that depends on which
+    // other curve was evaluated before - a mis-keyed memo - shows up here and nowhere else)
+    let inter = parallel(threads, |w, run| {
+        let mut rng = ctx.rng("C17.interleave", w);
+        let mut pool: Vec<(u64, usize, usize)> = Vec::new();
+        let smalls: Vec<u64> = (0..24).chain([63, 64, 255, 256, 1023, 1024, 4095, 4096].into_iter()).collect();
+        for n in 1..=29usize {
+            for oi in 0..6 {
+                for s in &smalls {
+                    if *s < (1u64 << (2 * n)) && (n + oi + *s as usize) % threads == w {
+                        pool.push((*s, n, oi));
+                    }
+                }
+                for pat in ["max", "all3", "alt"] {
+                    let s = gen::s_pattern(&mut rng, n as u32, pat);
+                    if (n + oi) % threads == w {
+                        pool.push((s, n, oi));
+                    }
+                }
+            }
+        }
+        if pool.is_empty() {
+            return;
+        }
+        let rounds = ctx.n(40, 400);
+        for _ in 0..rounds {
+            rng.shuffle(&mut pool);
+            for (s, n, oi) in pool.iter() {
+                check_position(run, *s, *n, *oi, None);
+                run.count("interleaved.evaluations");
+            }
+            // and same position on curves 16 levels apart / of the other flip family, directly one after the other
+            for _ in 0..pool.len() / 4 {
+                let (s, n, oi) = *rng.pick(&pool);
+                check_position(run, s, n, oi, None);
+                let n2 = if n > 16 { n - 16 } else { n + 16 };
+                if n2 <= 29 && s < (1u64 << (2 * n2)) {
+                    check_position(run, s, n2, rng.usize(6), None);
+                    check_position(run, s, n, oi, None);
+                }
+            }
+        }
+    });
+    out.merge(inter);
     for n in 1..=exhaustive_to {
         if out.counters.get(&format!("exhaustive.n{n:02}.positions")).copied().unwrap_or(0) != 6 * (1u64 << (2 * n)) {
             out.inconclusive(format!("exhaustive pass incomplete for depth {n}"));
